@@ -312,78 +312,3 @@ def run(ctx, chk):
     chk.analysed.update({"operand_variants": len(variants), "mask_tables": len(mt)})
 
 
-def fmt_args_text(text):
-    """'::alloc::__export::must_use({ ::alloc::fmt::format(format_args!("%{0}", v)) })' -> ("%{0}", "v")"""
-    m = re.search(r'format_args!\("((?:[^"\\]|\\.)*)",\s*([^)]*)\)', text)
-    if not m:
-        return None
-    return m.group(1), m.group(2).strip()
-
-
-def module_walk(fm):
-    """ordered events of Module::disassemble"""
-    ev = []
-
-    def stmt_events(stmts, depth):
-        for s in stmts:
-            e = s[1] if s[0] == "expr" else (s[3] if s[0] == "local" else None)
-            if e is None:
-                continue
-            t = show(e)
-            if e[0] == "for":
-                src = show(e[2])
-                var = show(e[1])
-                if src == "&self.functions":
-                    ev.append("for f in functions")
-                    stmt_events(e[3][1], depth + 1)
-                    ev.append("end-for f")
-                elif re.match(r"^&\w+\.blocks$", src):
-                    ev.append("for bb in f.blocks")
-                    stmt_events(e[3][1], depth + 1)
-                    ev.append("end-for bb")
-                elif re.match(r"^&\w+\.instructions$", src):
-                    ev.append("for inst in bb.instructions")
-                    ps = sites(e[3], lambda n: n[0] == "mcall" and n[2] == "push")
-                    ext = [(show(n), c) for n, c in ps if "disas_ext_inst(%s, &ext_inst_set_tracker)" % var in show(n)]
-                    gen = [(show(n), c) for n, c in ps if "%s.disassemble()" % var in show(n) and "disas_ext_inst" not in show(n)]
-                    pos = lambda c: any(x.endswith("matches spirv::Op::ExtInst") or x == "((%s.class.opcode == spirv::Op::ExtInst))" % var or x == "(%s.class.opcode == spirv::Op::ExtInst)" % var for x in c)
-                    neg = lambda c: any(x.endswith("matches _") or x.startswith("!((%s.class.opcode == spirv::Op::ExtInst" % var) or x.startswith("!(%s.class.opcode == spirv::Op::ExtInst" % var) or
-                                        x == "((%s.class.opcode != spirv::Op::ExtInst))" % var for x in c)
-                    if len(ps) == 2 and len(ext) == 1 and len(gen) == 1 and pos(ext[0][1]) and neg(gen[0][1]):
-                        ev.append("inst")
-                    else:
-                        ev.append("inst?" + str([(t[:50], c) for t, c in ext + gen])[:160])
-                    ev.append("end-for inst")
-                elif "ext_inst_imports" in src or "types_global_values" in src:
-                    continue
-                else:
-                    ev.append("for?" + src)
-                continue
-            if e[0] == "if" and e[1][0] == "let" and "self.header" in show(e[1][2]):
-                if "header.disassemble()" in show(e[2]) and ".push(" in show(e[2]):
-                    ev.append("header")
-                continue
-            if s[0] == "local" and "self.global_inst_iter()" in t and '.join("\\n")' in t:
-                ev.append("globals-built")
-                continue
-            if e[0] == "if" and ".push(" in t:
-                # push!(&mut text, X): if !X.is_empty() { text.push(X) }
-                if "global_insts" in t:
-                    if "globals-built" in ev:
-                        ev.remove("globals-built")
-                        ev.append("globals")
-                elif re.search(r"\w+\.def\.as_ref\(\)\.map_or\(String::new\(\), \|i\| i\.disassemble\(\)\)", t):
-                    ev.append("f.def")
-                elif re.search(r"disas_join\(&\w+\.parameters, \"\\n\"\)", t):
-                    ev.append("f.parameters")
-                elif re.search(r"\w+\.label\.as_ref\(\)\.map_or\(String::new\(\), \|i\| i\.disassemble\(\)\)", t):
-                    ev.append("bb.label")
-                elif re.search(r"\w+\.end\.as_ref\(\)\.map_or\(String::new\(\), \|i\| i\.disassemble\(\)\)", t):
-                    ev.append("f.end")
-                else:
-                    ev.append("push?" + t[:60])
-                continue
-            if s[0] == "expr" and t == 'text.join("\\n")':
-                ev.append("join-lines")
-    stmt_events(fm["body"][1], 0)
-    return ev
